@@ -320,3 +320,53 @@ Section Correct.
     parse_expr V num cst fun1 fun2 tbl (ser_top tbl rho t) = PVal (eval t).
   Proof. apply parse_ser_top. Qed.
 End Correct.
+
+(* ------------------------------------------------------------------ the free term algebra *)
+Lemma eval_free t : eval expr Num Cst free1 free2 t = t.
+Proof. induction t as [n | c | u x IHx | b l IHl r IHr]; cbn; congruence. Qed.
+
+Theorem parse_returns_tree tbl : table_ok tbl = true -> forall rho t, parse_tree tbl (ser_top tbl rho t) = PVal t.
+Proof.
+  intros Hok rho t. unfold parse_tree. rewrite (parse_ser_top expr Num Cst free1 free2 tbl Hok rho t).
+  rewrite eval_free. reflexivity.
+Qed.
+
+Lemma documented_table_ok : table_ok documented_table = true.
+Proof. vm_compute. reflexivity. Qed.
+
+(* The table of today's expr.py ("^" at 10, above the prefix functions at 9) is not ok, and the minimally
+   parenthesised text of Pow(Floor x, y), `floor x ^ y`, is parsed as Floor(Pow(x, y));
+   likewise `not x ^ y`. *)
+Lemma current_table_deviates :
+  table_ok table_2024 = false /\
+  forall u x y, In u [UNot; UAbs; UCeil; UFloor; UTrunc] ->
+    ser_min documented_table (Bin BPow (Un u (Num x)) (Num y)) = [TOp (OU u); TNum x; TOp (OB BPow); TNum y] /\
+    parse_tree table_2024 [TOp (OU u); TNum x; TOp (OB BPow); TNum y] = PVal (Un u (Bin BPow (Num x) (Num y))) /\
+    parse_tree documented_table [TOp (OU u); TNum x; TOp (OB BPow); TNum y] = PVal (Bin BPow (Un u (Num x)) (Num y)).
+Proof.
+  split; [vm_compute; reflexivity|].
+  intros u x y Hu. cbn in Hu.
+  destruct Hu as [<-|[<-|[<-|[<-|[<-|[]]]]]]; repeat split; reflexivity.
+Qed.
+
+(* Non-vacuity: a tree of depth 4 using prefix, binary, left/right nesting and a comparison:
+     ((1 - (2 - 3)) * -4 ^ 2 < abs (5 + 6)) or not 0        (numbers stand for their one-character literals) *)
+Definition ex_tree : expr :=
+  Bin BOr
+    (Bin BLt
+       (Bin BMul (Bin BSub (Num [49%N]) (Bin BSub (Num [50%N]) (Num [51%N])))
+                 (Bin BPow (Un UMinus (Num [52%N])) (Num [50%N])))
+       (Un UAbs (Bin BAdd (Num [53%N]) (Num [54%N]))))
+    (Un UNot (Num [48%N])).
+
+Lemma example_parse :
+  ser_min documented_table ex_tree
+  = [TLParen; TNum [49%N]; TOp (OB BSub); TLParen; TNum [50%N]; TOp (OB BSub); TNum [51%N]; TRParen; TRParen;
+     TOp (OB BMul); TOp (OB BSub); TNum [52%N]; TOp (OB BPow); TNum [50%N];
+     TOp (OB BLt); TOp (OU UAbs); TLParen; TNum [53%N]; TOp (OB BAdd); TNum [54%N]; TRParen;
+     TOp (OB BOr); TOp (OU UNot); TNum [48%N]]
+  /\ parse_tree documented_table (ser_min documented_table ex_tree) = PVal ex_tree
+  /\ parse_tree documented_table (ser_full ex_tree) = PVal ex_tree
+  /\ parse_tree documented_table (ser_double documented_table ex_tree) = PVal ex_tree
+  /\ length (ser_full ex_tree) = 38%nat.
+Proof. vm_compute. repeat split. Qed.
